@@ -258,10 +258,14 @@ fn visit_tcp(
             WSCALE => {
                 olayout.push(TcpOption::Ws);
 
-                wscale = Some(data[0]);
+                // A window-scale option may be malformed (length 2, no shift byte): keep the
+                // option in the layout but take no value from it
+                if let Some(&shift) = data.first() {
+                    wscale = Some(shift);
 
-                if data[0] > 14 {
-                    quirks.push(Quirk::ExcessiveWindowScaling);
+                    if shift > 14 {
+                        quirks.push(Quirk::ExcessiveWindowScaling);
+                    }
                 }
             }
             SACK_PERMITTED => {
